@@ -68,7 +68,7 @@ theorem getChunkKeys_noPanic : ∀ (n : Nat) (b : Bytes), (getChunkKeys n b).NoP
     refine (readMapKey_noPanic _ b).bind fun k b1 => ?_
     split
     · exact readMapKey_noPanic _ b1
-    · exact (skip_noPanic b1).bind fun _ b2 => getChunkKeys_noPanic n b2
+    · exact (skipP_noPanic .stream b1).bind fun _ b2 => getChunkKeys_noPanic n b2
 
 /-- `GetChunk` (hence `RawMessage.Chunk`) never panics, whatever the bytes -/
 theorem C10_noPanic_getChunk (b : Bytes) : (getChunk b).NoPanic := by
@@ -76,13 +76,13 @@ theorem C10_noPanic_getChunk (b : Bytes) : (getChunk b).NoPanic := by
   refine (readArrayHeader_noPanic b).bind fun sz b1 => ?_
   split
   · exact Res.noPanic_err
-  · refine (skip_noPanic b1).bind fun _ b2 => ?_
-    refine Res.NoPanic.bind ?_ fun _ b3 => (skip_noPanic b3).bind fun _ b4 =>
+  · refine (skipP_noPanic .stream b1).bind fun _ b2 => ?_
+    refine Res.NoPanic.bind ?_ fun _ b3 => (skipP_noPanic .stream b3).bind fun _ b4 =>
       (readMapHeader_noPanic b4).bind fun n b5 => getChunkKeys_noPanic n b5
     split
     · split
       · exact Res.noPanic_err
-      · exact skip_noPanic b2
+      · exact skipP_noPanic .stream b2
     · exact Res.noPanic_ok _ _
 
 /-- EventTime payload decoding is total: a value or an error -/
